@@ -244,6 +244,12 @@ class Adapter:
             return None
         return self.apply_other(op)
 
+    def ref_call(self, c):
+        return c
+
+    def info(self):
+        return None
+
     def reset_memory(self):
         """Put the module (and transform._basis_dir) in its import-time state."""
         import abel.transform as T
@@ -362,7 +368,7 @@ class Daun(Adapter):
         fs = _glob.glob(os.path.join(self.env.path(d), 'daun_basis_*_%d.npy' % c['degree']))
         return int(fs[-1].split('_')[-2]) if fs else 0
 
-    def coq_op(self, op, aux):
+    def coq_op(self, op, aux, ref=None):
         k = op[0]
         if k == 'call':
             c = op[1]
@@ -405,7 +411,615 @@ class Daun(Adapter):
                    clist(['(%d, %d, %d)' % t for t in sorted(st['listing'])])))
 
 
-ADAPTERS = {'daun': Daun}
+class Basex(Adapter):
+    name = 'basex'
+    coq_module = 'CacheBasex'
+    file_prefix = 'basex_basis_'
+    SIGMAS = [1.0, 2.0, 1.5]
+    REGS = [0.0, 10.0, 1.0]
+    DRS = [1.0, 0.5]
+
+    @staticmethod
+    def mod():
+        import abel.basex
+        return abel.basex
+
+    def reset_module(self):
+        m = self.mod()
+        m._bs_prm = m._bs = m._trf_prm = m._trf = m._tri_prm = m._tri = None
+
+    def fname(self, key):
+        return 'basex_basis_%d_%s.npy' % (key[0], self.SIGMAS[key[1]])
+
+    def parse_name(self, f):
+        a = f[:-4].split('_')
+        return (int(a[2]), self.SIGMAS.index(float(a[3])))
+
+    def make_good_file(self, key):
+        buf = io.BytesIO()
+        with contextlib.redirect_stdout(io.StringIO()):
+            np.save(buf, self.mod()._bs_basex(key[0], self.SIGMAS[key[1]], verbose=False))
+        return buf.getvalue()
+
+    def junk_file(self, key):
+        k = max(1, key[0] // 2)
+        buf = io.BytesIO()
+        np.save(buf, np.array([np.eye(k), np.eye(k)]))
+        return buf.getvalue()
+
+    def coq_content(self, key):
+        return '(ideal %d %d)' % key
+
+    def gen_call(self, rng):
+        return dict(n=int(rng.choice([5, 6, 8, 9, 12])), sig=int(rng.integers(3)), reg=int(rng.integers(3)),
+                    corr=bool(rng.random() < 0.5), dr=int(rng.integers(2)),
+                    direction='forward' if rng.random() < 0.4 else 'inverse',
+                    bd=[None, '', 1, 1, 2, BADDIR][rng.integers(6)] if rng.random() < 0.8 else 1,
+                    seed=int(rng.integers(1 << 30)))
+
+    def gen_op(self, rng):
+        u = rng.random()
+        if u < 0.62:
+            return ('call', self.gen_call(rng))
+        if u < 0.74:
+            return ('cleanup', ['all', 'forward', 'inverse'][rng.integers(3)])
+        if u < 0.79:
+            return ('dircleanup', [None, '', 1, 2][rng.integers(4)])
+        if u < 0.85:
+            return ('setdir', [None, '', 1, 2][rng.integers(4)])
+        key = (int(rng.choice([4, 5, 6, 8, 9, 12, 14])), int(rng.integers(3)))
+        d = int(rng.integers(0, 3))
+        if u < 0.95:
+            return ('seed', d, key, 'good')
+        return ('remove', d, key)
+
+    def call(self, c, env=None):
+        env = env or self.env
+        IM = image(c['seed'], (2, c['n']))
+        return quiet(self.mod().basex_transform, IM, sigma=self.SIGMAS[c['sig']], reg=self.REGS[c['reg']],
+                     correction=c['corr'], basis_dir=env.arg(c['bd']), dr=self.DRS[c['dr']],
+                     verbose=False, direction=c['direction'])
+
+    def apply_other(self, op):
+        m = self.mod()
+        if op[0] == 'cleanup':
+            m.cache_cleanup(op[1])
+        elif op[0] == 'dircleanup':
+            quiet(m.basis_dir_cleanup, self.env.arg(op[1]))
+        return None
+
+    def pre(self, op):
+        return 0
+
+    def coq_op(self, op, aux, ref=None):
+        k = op[0]
+        if k == 'call':
+            c = op[1]
+            return '(Call %d %d %d %s %d %s %s)' % (c['n'], c['sig'], c['reg'], cbool(c['corr']), c['dr'],
+                                                    cbool(c['direction'] == 'forward'), cbd(c['bd']))
+        if k == 'cleanup':
+            return '(Cleanup %s)' % {'all': 'CAll', 'forward': 'CFwd', 'inverse': 'CInv'}[op[1]]
+        if k == 'dircleanup':
+            return '(DirCleanup %s)' % cbd(op[1])
+        if k == 'setdir':
+            return '(SetDir %s)' % cbd(op[1])
+        if k == 'seed':
+            return '(Seed %d (%d, %d) %s)' % (op[1], op[2][0], op[2][1], self.coq_fstate(op[2], op[3]))
+        if k == 'remove':
+            return '(Remove %d (%d, %d))' % (op[1], op[2][0], op[2][1])
+        raise ValueError(op)
+
+    def prm3(self, p):
+        if p is None:
+            return []
+        return [self.REGS.index(float(p[0])), int(bool(p[1])), self.DRS.index(float(p[2]))]
+
+    def state(self):
+        m = self.mod()
+        return dict(bs_prm=[m._bs_prm[0], self.SIGMAS.index(m._bs_prm[1])] if m._bs_prm is not None else [],
+                    bs_rows=[m._bs[0].shape[0]] if m._bs is not None else [],
+                    trf_prm=self.prm3(m._trf_prm), tri_prm=self.prm3(m._tri_prm),
+                    gdir=basis_dir_global(self.env),
+                    listing=[(d,) + self.parse_name(f) for d, f in self.env.files(self.file_prefix)])
+
+    def coq_obs(self, code, agree, fresh_code, st):
+        return ('{| o_code := %d; o_agree := %s; o_fresh_code := %d; o_bs_prm := %s; o_bs_rows := %s; '
+                'o_trf_prm := %s; o_tri_prm := %s; o_gdir := %d; o_listing := %s |}'
+                % (code, cbool(agree), fresh_code, cnats(st['bs_prm']), cnats(st['bs_rows']),
+                   cnats(st['trf_prm']), cnats(st['tri_prm']), st['gdir'],
+                   clist(['(%d, %d, %d)' % t for t in sorted(st['listing'])])))
+
+
+class Dasch(Adapter):
+    name = 'dasch'
+    coq_module = 'CacheDasch'
+    file_prefix = ('two_point_basis_', 'three_point_basis_', 'onion_peeling_basis_')
+    METHODS = ['two_point', 'three_point', 'onion_peeling']
+
+    @staticmethod
+    def mod():
+        import abel.dasch
+        return abel.dasch
+
+    def reset_module(self):
+        m = self.mod()
+        m._D = m._method = m._source = None
+
+    def fname(self, key):
+        return '%s_basis_%d.npy' % (self.METHODS[key[0]], key[1])
+
+    def parse_name(self, f):
+        for i, mname in enumerate(self.METHODS):
+            if f.startswith(mname + '_basis_'):
+                return (i, int(f[len(mname) + 7:-4]))
+        raise ValueError(f)
+
+    def make_good_file(self, key):
+        buf = io.BytesIO()
+        np.save(buf, getattr(self.mod(), '_bs_' + self.METHODS[key[0]])(key[1]))
+        return buf.getvalue()
+
+    def junk_file(self, key):
+        buf = io.BytesIO()
+        np.save(buf, np.eye(max(1, key[1] // 2)))
+        return buf.getvalue()
+
+    def coq_content(self, key):
+        return '(ideal %d %d)' % key
+
+    def gen_call(self, rng):
+        return dict(meth=int(rng.integers(3)), n=int(rng.choice([5, 6, 8, 9, 12])),
+                    bd=[None, '', 1, 1, 2, BADDIR][rng.integers(6)] if rng.random() < 0.8 else 1,
+                    dr=float(rng.choice([1.0, 0.5])), seed=int(rng.integers(1 << 30)))
+
+    def gen_op(self, rng):
+        u = rng.random()
+        if u < 0.62:
+            return ('call', self.gen_call(rng))
+        if u < 0.72:
+            return ('cleanup',)
+        if u < 0.78:
+            return ('dircleanup', int(rng.integers(3)), [None, '', 1, 2][rng.integers(4)])
+        if u < 0.84:
+            return ('setdir', [None, '', 1, 2][rng.integers(4)])
+        key = (int(rng.integers(3)), int(rng.choice([4, 5, 6, 8, 9, 12, 14])))
+        d = int(rng.integers(0, 3))
+        if u < 0.95:
+            return ('seed', d, key, 'good')
+        return ('remove', d, key)
+
+    def call(self, c, env=None):
+        env = env or self.env
+        IM = image(c['seed'], (2, c['n']))
+        f = getattr(self.mod(), self.METHODS[c['meth']] + '_transform')
+        return quiet(f, IM, basis_dir=env.arg(c['bd']), dr=c['dr'], direction='inverse', verbose=False)
+
+    def apply_other(self, op):
+        m = self.mod()
+        if op[0] == 'cleanup':
+            m.cache_cleanup()
+        elif op[0] == 'dircleanup':
+            quiet(m.basis_dir_cleanup, self.METHODS[op[1]], self.env.arg(op[2]))
+        return None
+
+    def pre(self, op):
+        """sizes in the names of this method's files, in glob order"""
+        if op[0] != 'call':
+            return []
+        d = resolved_dir(self.env, op[1]['bd'])
+        if d is None:
+            return []
+        fs = _glob.glob(os.path.join(self.env.path(d), self.METHODS[op[1]['meth']] + '_basis*'))
+        return [int(f.split('_')[-1].split('.')[0]) for f in fs]
+
+    def coq_op(self, op, aux, ref=None):
+        k = op[0]
+        if k == 'call':
+            c = op[1]
+            return '(Call %d %d %s %s)' % (c['meth'], c['n'], cbd(c['bd']), cnats(aux))
+        if k == 'cleanup':
+            return 'Cleanup'
+        if k == 'dircleanup':
+            return '(DirCleanup %d %s)' % (op[1], cbd(op[2]))
+        if k == 'setdir':
+            return '(SetDir %s)' % cbd(op[1])
+        if k == 'seed':
+            return '(Seed %d (%d, %d) %s)' % (op[1], op[2][0], op[2][1], self.coq_fstate(op[2], op[3]))
+        if k == 'remove':
+            return '(Remove %d (%d, %d))' % (op[1], op[2][0], op[2][1])
+        raise ValueError(op)
+
+    def state(self):
+        m = self.mod()
+        files = []
+        for pre in self.file_prefix:
+            files += self.env.files(pre)
+        return dict(method=[self.METHODS.index(m._method)] if m._method is not None else [],
+                    size=[m._D.shape[0]] if m._D is not None else [],
+                    source={None: 0, 'cache': 1, 'file': 2, 'generated': 3}[m._source],
+                    gdir=basis_dir_global(self.env),
+                    listing=[(d,) + self.parse_name(f) for d, f in files])
+
+    def coq_obs(self, code, agree, fresh_code, st):
+        return ('{| o_code := %d; o_agree := %s; o_fresh_code := %d; o_method := %s; o_size := %s; '
+                'o_source := %d; o_gdir := %d; o_listing := %s |}'
+                % (code, cbool(agree), fresh_code, cnats(st['method']), cnats(st['size']), st['source'],
+                   st['gdir'], clist(['(%d, %d, %d)' % t for t in sorted(st['listing'])])))
+
+
+class Linbasex(Adapter):
+    name = 'linbasex'
+    coq_module = 'CacheLinbasex'
+    file_prefix = 'linbasex_basis_'
+    ORDERS = [[0, 2], [0, 2], [0, 1, 2], [1, 2], [12], [0], [0, 2, 4]]
+    # angles in units of pi/400; a = 0 or a % 4 != 0 (see CacheLinbasex.v)
+    ANGLES = [[0, 202], [0, 202], [0, 201], [0, 102], [22, 2], [202], [0, 182, 362]]
+
+    @staticmethod
+    def mod():
+        import abel.linbasex
+        return abel.linbasex
+
+    def reset_module(self):
+        m = self.mod()
+        m._basis = m._los = m._pas = m._radial_step = m._clip = None
+
+    @staticmethod
+    def keystr(key):
+        cols, orders, angles, step, clip = key
+        los = ''.join(map(str, orders))
+        pas = ''.join(str(a // 4) for a in angles)
+        return cols, los, pas, step, clip
+
+    def fname(self, key):
+        return 'linbasex_basis_%d_%s_%s_%d_%d.npy' % self.keystr(key)
+
+    def make_good_file(self, key):
+        cols, orders, angles, step, clip = key
+        buf = io.BytesIO()
+        np.save(buf, self.mod()._bs_linbasex(cols, proj_angles=[a * np.pi / 400 for a in angles],
+                                             legendre_orders=list(orders), radial_step=step, clip=clip))
+        return buf.getvalue()
+
+    def junk_file(self, key):
+        buf = io.BytesIO()
+        np.save(buf, np.zeros((2 * key[0], 2)))
+        return buf.getvalue()
+
+    def coq_key(self, key):
+        cols, orders, angles, step, clip = key
+        return '(%d, key_of %s %s %d %d)' % (cols, cnats(orders), cnats(angles), step, clip)
+
+    def coq_content(self, key):
+        cols, orders, angles, step, clip = key
+        return '(ideal %d %s %s %d %d)' % (cols, cnats(orders), cnats(angles), step, clip)
+
+    def gen_params(self, rng):
+        return (int(rng.choice([7, 9, 11])), tuple(self.ORDERS[rng.integers(len(self.ORDERS))]),
+                tuple(self.ANGLES[rng.integers(len(self.ANGLES))]),
+                int(rng.choice([1, 1, 2])), int(rng.choice([0, 0, 1])))
+
+    def gen_call(self, rng):
+        cols, orders, angles, step, clip = self.gen_params(rng)
+        return dict(n=cols, orders=list(orders), angles=list(angles), step=step, clip=clip,
+                    bd=[None, '', 1, 1, 2, BADDIR][rng.integers(6)] if rng.random() < 0.8 else 1,
+                    seed=int(rng.integers(1 << 30)))
+
+    def gen_op(self, rng):
+        u = rng.random()
+        if u < 0.66:
+            return ('call', self.gen_call(rng))
+        if u < 0.76:
+            return ('cleanup',)
+        if u < 0.80:
+            return ('dircleanup', [None, '', 1, 2][rng.integers(4)])
+        if u < 0.86:
+            return ('setdir', [None, '', 1, 2][rng.integers(4)])
+        key = self.gen_params(rng)
+        d = int(rng.integers(0, 3))
+        if u < 0.95:
+            return ('seed', d, key, 'good')
+        return ('remove', d, key)
+
+    def call(self, c, env=None):
+        env = env or self.env
+        IM = image(c['seed'], (c['n'], c['n']))
+        return quiet(self.mod().linbasex_transform_full, IM, basis_dir=env.arg(c['bd']),
+                     proj_angles=[a * np.pi / 400 for a in c['angles']], legendre_orders=list(c['orders']),
+                     radial_step=c['step'], clip=c['clip'], verbose=False)
+
+    def apply_other(self, op):
+        m = self.mod()
+        if op[0] == 'cleanup':
+            m.cache_cleanup()
+        elif op[0] == 'dircleanup':
+            quiet(m.basis_dir_cleanup, self.env.arg(op[1]))
+        return None
+
+    def pre(self, op):
+        return 0
+
+    def coq_op(self, op, aux, ref=None):
+        k = op[0]
+        if k == 'call':
+            c = op[1]
+            return '(Call %d %s %s %d %d %s)' % (c['n'], cnats(c['orders']), cnats(c['angles']), c['step'],
+                                                 c['clip'], cbd(c['bd']))
+        if k == 'cleanup':
+            return 'Cleanup'
+        if k == 'dircleanup':
+            return '(DirCleanup %s)' % cbd(op[1])
+        if k == 'setdir':
+            return '(SetDir %s)' % cbd(op[1])
+        if k == 'seed':
+            return '(Seed %d %s %s)' % (op[1], self.coq_key(op[2]), self.coq_fstate(op[2], op[3]))
+        if k == 'remove':
+            return '(Remove %d %s)' % (op[1], self.coq_key(op[2]))
+        raise ValueError(op)
+
+    def state(self):
+        m = self.mod()
+        has = m._los is not None
+        return dict(los=[[ord(ch) for ch in m._los]] if has else [],
+                    pas=[[ord(ch) for ch in m._pas]] if has else [],
+                    stepclip=[int(m._radial_step), int(m._clip)] if has else [],
+                    shape=list(m._basis.shape) if m._basis is not None else [],
+                    gdir=basis_dir_global(self.env),
+                    files=len(self.env.files(self.file_prefix)))
+
+    def coq_obs(self, code, agree, fresh_code, st):
+        return ('{| o_code := %d; o_agree := %s; o_fresh_code := %d; o_los := %s; o_pas := %s; '
+                'o_stepclip := %s; o_shape := %s; o_gdir := %d; o_files := %d |}'
+                % (code, cbool(agree), fresh_code, clist([cnats(x) for x in st['los']]),
+                   clist([cnats(x) for x in st['pas']]), cnats(st['stepclip']), cnats(st['shape']),
+                   st['gdir'], st['files']))
+
+
+class Rbasex(Adapter):
+    name = 'rbasex'
+    coq_module = 'CacheRbasex'
+    file_prefix = 'rbasex_basis_'
+    SHAPES = [(9, 9), (9, 11)]
+    ORIGINS = ['center', (3, 4)]
+    RMAXS = ['MIN', 3, 'foo']
+    REGS = {0: None, 1: 'pos', 2: ('L2', 1.0), 3: ('diff', 1.0), 4: ('SVD', 0.5), 8: ('SVD', 2.0), 9: 'foo'}
+    OUTS = ['same', 'fold', 'unfold', 'full', 'full-unique', None]
+    WSHAPE = {1: (9, 9), 2: (9, 9), 3: (9, 11)}
+
+    def __init__(self, env):
+        Adapter.__init__(self, env)
+        self.pids = {}
+        self.vids = {}
+        self.reset_weights()
+        self._info = None
+
+    # weights objects: identity matters, content is a function of (id, version)
+    @staticmethod
+    def wcontent(wid, ver):
+        w = np.random.default_rng(1000 + wid).random(Rbasex.WSHAPE[wid]) + 0.5
+        for v in range(ver):
+            w[(2 + v) % w.shape[0], :] *= 0.25
+            w[:, (1 + 2 * v) % w.shape[1]] = 0
+        return w
+
+    def reset_weights(self):
+        self.wobj = {w: self.wcontent(w, 0) for w in self.WSHAPE}
+        self.wver = {w: 0 for w in self.WSHAPE}
+
+    @staticmethod
+    def mod():
+        import abel.rbasex
+        return abel.rbasex
+
+    def reset_module(self):
+        m = self.mod()
+        m._prm = m._weights = m._dst = m._bs_prm = m._bs = m._ibs = None
+        m._trf = m._tri_full = m._tri_prm = m._tri = None
+        self.reset_weights()
+
+    def fname(self, key):
+        return 'rbasex_basis_%d_%d%s%s.npy' % (key[0], key[1], 'o' if key[2] else '', 'i' if key[3] else '')
+
+    def parse_name(self, f):
+        import re
+        m = re.match(r'rbasex_basis_(\d+)_(\d+)(o?)(i?)\.npy$', f)
+        return (int(m.group(1)), int(m.group(2)), int(bool(m.group(3))), int(bool(m.group(4))))
+
+    def make_good_file(self, key):
+        from scipy.linalg import solve_triangular
+        m = self.mod()
+        R, order, odd, inv = key
+        bs = m._bs_rbasex(R, order, bool(odd))
+        tri = [solve_triangular(Pn, np.eye(R + 1), lower=True).T for Pn in bs] if inv else None
+        d = os.path.join(self.env.root, 'mk')
+        os.makedirs(d, exist_ok=True)
+        m._save_bs(d, R, order, bool(odd), bs, tri)
+        data = open(os.path.join(d, self.fname(key)), 'rb').read()
+        shutil.rmtree(d, ignore_errors=True)
+        return data
+
+    def junk_file(self, key):
+        buf = io.BytesIO()
+        k = max(1, key[0] // 2)
+        n = 1 + (key[1] if key[2] else key[1] // 2)
+        np.save(buf, np.array([np.eye(k + 1)] * n))
+        return buf.getvalue()
+
+    def coq_key(self, key):
+        return '{| fk_rmax := %d; fk_order := %d; fk_odd := %s; fk_inv := %s |}' % (
+            key[0], key[1], cbool(key[2]), cbool(key[3]))
+
+    def coq_content(self, key):
+        return '{| f_c := ideal %d %d %s; f_inv := %s |}' % (key[0], key[1], cbool(key[2]), cbool(key[3]))
+
+    def gen_call(self, rng):
+        sh = int(rng.integers(2))
+        order = int(rng.choice([0, 1, 2, 2, 4]))
+        odd = bool(rng.random() < 0.3)
+        eff_odd = False if order == 0 else True if order % 2 else odd
+        wids = [0] + [w for w, s in self.WSHAPE.items() if s == self.SHAPES[sh]]
+        direction = 'forward' if rng.random() < 0.3 else 'inverse'
+        # reg='pos' only where the library supports it (inverse; not odd with order > 1)
+        regs = [0, 0, 0, 2, 3, 4, 8, 9] + ([1] if direction == 'inverse' and not (eff_odd and order > 1) else [])
+        return dict(shape=sh, origin=int(rng.integers(2)),
+                    rmax=int(rng.choice([0, 0, 0, 1, 2])), order=order, odd=odd,
+                    wid=int(wids[rng.integers(len(wids))]) if rng.random() < 0.5 else 0,
+                    direction=direction,
+                    reg=int(regs[rng.integers(len(regs))]), out=int(rng.integers(len(self.OUTS))),
+                    bd=[None, '', 1, 1, 2, BADDIR][rng.integers(6)] if rng.random() < 0.6 else None,
+                    seed=int(rng.integers(1 << 30)))
+
+    def gen_op(self, rng):
+        u = rng.random()
+        if u < 0.66:
+            return ('call', self.gen_call(rng))
+        if u < 0.76:
+            return ('cleanup', ['all', 'forward', 'inverse'][rng.integers(3)])
+        if u < 0.79:
+            return ('dircleanup', [None, '', 1, 2][rng.integers(4)])
+        if u < 0.83:
+            return ('setdir', [None, '', 1, 2][rng.integers(4)])
+        if u < 0.88:
+            return ('mutw', int(rng.integers(1, 4)))
+        order = int(rng.choice([0, 1, 2, 4]))
+        key = (int(rng.choice([3, 4, 5, 6])), order, int(bool(order % 2 or (order and rng.random() < 0.4))),
+               int(rng.random() < 0.5))
+        d = int(rng.integers(0, 3))
+        if u < 0.96:
+            return ('seed', d, key, 'good')
+        return ('remove', d, key)
+
+    def weights_for(self, c):
+        """The weights object of a call.  In the process that runs histories the
+        objects persist (identity!); a call that names a version (reference
+        runs) gets a new array with that content."""
+        if c['wid'] == 0:
+            return None
+        if 'wver' in c:
+            return self.wcontent(c['wid'], c['wver'])
+        return self.wobj[c['wid']]
+
+    def call(self, c, env=None):
+        env = env or self.env
+        m = self.mod()
+        IM = image(c['seed'], self.SHAPES[c['shape']])
+        geom = []
+        orig = m._image
+
+        def spy(height, width, row, cc, verbose):
+            geom.append((int(height), int(width), int(row)))
+            return orig(height, width, row, cc, verbose)
+        m._image = spy
+        try:
+            out = quiet(m.rbasex_transform, IM, origin=self.ORIGINS[c['origin']], rmax=self.RMAXS[c['rmax']],
+                        order=c['order'], odd=c['odd'], weights=self.weights_for(c),
+                        direction=c['direction'], reg=self.REGS[c['reg']], out=self.OUTS[c['out']],
+                        basis_dir=env.arg(c['bd']), verbose=False)
+        finally:
+            m._image = orig
+        d = m._dst
+        self._info = dict(geom=geom[0] if geom else None,
+                          rmax=int(d.rmax) if d is not None and hasattr(d, 'rmax') and hasattr(d, 'valid') else 0,
+                          valid=d.valid.tobytes() if d is not None and hasattr(d, 'valid') else b'')
+        return out
+
+    def info(self):
+        return self._info
+
+    def apply_other(self, op):
+        m = self.mod()
+        if op[0] == 'cleanup':
+            m.cache_cleanup(op[1])
+        elif op[0] == 'dircleanup':
+            quiet(m.basis_dir_cleanup, self.env.arg(op[1]))
+        elif op[0] == 'mutw':
+            w = op[1]
+            self.wver[w] += 1
+            self.wobj[w][...] = self.wcontent(w, self.wver[w])      # in place: same object
+        return None
+
+    def ref_call(self, c):
+        """what is sent to the fresh worker: the weights content is named"""
+        c = dict(c)
+        if c['wid']:
+            c['wver'] = self.wver[c['wid']]
+        return c
+
+    def eff_odd(self, c):
+        return False if c['order'] == 0 else True if c['order'] % 2 else bool(c['odd'])
+
+    def pre(self, op):
+        if op[0] != 'call':
+            return None
+        c = op[1]
+        d = resolved_dir(self.env, c['bd'])
+        listing = []
+        if d is not None and d != BADDIR:
+            listing = [self.parse_name(f) for f in os.listdir(self.env.path(d)) if f.startswith(self.file_prefix)]
+        return dict(listing=listing, wver=self.wver[c['wid']] if c['wid'] else 0)
+
+    def coq_op(self, op, aux, ref=None):
+        k = op[0]
+        if k == 'call':
+            c = op[1]
+            info = (ref[2] if ref is not None and len(ref) > 2 and ref[2] else None) or {}
+            failed = ref is not None and ref[0] == 'exc'
+            fail = 0
+            if failed and self.RMAXS[c['rmax']] == 'foo':
+                fail = 2 if c['wid'] == 0 else 1
+            pkey = repr([self.SHAPES[c['shape']], self.ORIGINS[c['origin']], self.RMAXS[c['rmax']], c['order'],
+                         self.eff_odd(c)])
+            pid = self.pids.setdefault(pkey, len(self.pids) + 1)
+            vid = self.vids.setdefault(info.get('valid', b''), len(self.vids) + 1)
+            g = info.get('geom')
+            return ('(Call {| c_pid := %d; c_wid := %d; c_wver := %d; c_fail := %d; c_rmax := %d; c_vid := %d; '
+                    'c_order := %d; c_odd := %s; c_fwd := %s; c_reg := %d; c_geom := %s; c_bd := %s; '
+                    'c_listing := %s |})'
+                    % (pid, c['wid'], c['wid'] * 100 + aux['wver'], fail, info.get('rmax', 0), vid,
+                       c['order'], cbool(self.eff_odd(c)), cbool(c['direction'] == 'forward'), c['reg'],
+                       'None' if g is None else 'Some (%d, %d, %d)' % g, cbd(c['bd']),
+                       clist([self.coq_key(x) for x in aux['listing']])))
+        if k == 'cleanup':
+            return '(Cleanup %s)' % {'all': 'CAll', 'forward': 'CFwd', 'inverse': 'CInv'}[op[1]]
+        if k == 'dircleanup':
+            return '(DirCleanup %s)' % cbd(op[1])
+        if k == 'setdir':
+            return '(SetDir %s)' % cbd(op[1])
+        if k == 'mutw':
+            return None         # no model operation: the weights version travels with each call
+        if k == 'seed':
+            return '(Seed %d %s %s)' % (op[1], self.coq_key(op[2]), self.coq_fstate(op[2], op[3]))
+        if k == 'remove':
+            return '(Remove %d %s)' % (op[1], self.coq_key(op[2]))
+        raise ValueError(op)
+
+    def state(self):
+        m = self.mod()
+        prm = []
+        if m._prm is not None:
+            prm = [self.pids.setdefault(repr([tuple(m._prm[0]), m._prm[1], m._prm[2], m._prm[3], m._prm[4]]),
+                                        len(self.pids) + 1)]
+        d = m._dst
+        files = sorted((d_,) + self.parse_name(f) for d_, f in self.env.files(self.file_prefix))
+        return dict(prm=prm, dst=0 if d is None else 2 if hasattr(d, 'valid') else 1,
+                    ibs=m._ibs is not None,
+                    bs_prm=[m._bs_prm[0], m._bs_prm[1], int(bool(m._bs_prm[2]))] if m._bs_prm is not None else [],
+                    nbs=[len(m._bs), m._bs[0].shape[0]] if m._bs is not None else [],
+                    has_tri_full=m._tri_full is not None, has_trf=m._trf is not None,
+                    tri_prm=[{v if not isinstance(v, list) else tuple(v): k for k, v in self.REGS.items()}[
+                        m._tri_prm[0]]] if m._tri_prm is not None else [],
+                    gdir=basis_dir_global(self.env), files=[list(x) for x in files])
+
+    def coq_obs(self, code, agree, fresh_code, st):
+        return ('{| o_code := %d; o_agree := %s; o_fresh_code := %d; o_prm := %s; o_dst := %d; o_ibs := %s; '
+                'o_bs_prm := %s; o_nbs := %s; o_has_tri_full := %s; o_has_trf := %s; o_tri_prm := %s; '
+                'o_gdir := %d; o_files := %s |}'
+                % (code, cbool(agree), fresh_code, cnats(st['prm']), st['dst'], cbool(st['ibs']),
+                   cnats(st['bs_prm']), cnats(st['nbs']), cbool(st['has_tri_full']), cbool(st['has_trf']),
+                   cnats(st['tri_prm']), st['gdir'], clist([cnats(x) for x in st['files']])))
+
+
+ADAPTERS = {'daun': Daun, 'basex': Basex, 'dasch': Dasch, 'linbasex': Linbasex, 'rbasex': Rbasex}
 
 
 # --------------------------------------------------------------------------
@@ -452,9 +1066,21 @@ def fresh_call(env, adapters, modname, call):
     c = dict(call)
     c['bd'] = fresh_bd(c.get('bd'))
     out = adapters[modname].call(c)
+    info = adapters[modname].info()
+    if out[0] == 'exc' and modname == 'rbasex':
+        # the quantities derived by Distributions (rmax, valid, output geometry)
+        # are taken from a run that cannot fail in the cache code
+        env.reset()
+        for a in adapters.values():
+            a.reset_memory()
+        adapters[modname].call(dict(c, bd=None, reg=0))
+        info = adapters[modname].info()
+        env.reset()
+        for a in adapters.values():
+            a.reset_memory()
     if out[0] == 'ok':
-        return ('ok', [np.array(x) for x in flat(out[1])])
-    return out
+        return ('ok', [np.array(x) for x in flat(out[1])], info)
+    return (out[0], out[1], info)
 
 
 def worker_main(root):
@@ -518,7 +1144,7 @@ def run_history(adapter, worker, ops):
         agree = True
         ref = None
         if op[0] == 'call':
-            ref = worker.ask(adapter.name, op[1])
+            ref = worker.ask(adapter.name, adapter.ref_call(op[1]))
             if ref[0] == 'harness-error':
                 raise RuntimeError('fresh worker: ' + ref[1])
             code = 0 if out[0] == 'ok' else exc_code(out[1])
@@ -533,9 +1159,12 @@ def run_history(adapter, worker, ops):
 
 
 def coq_history(adapter, recs):
-    return clist(['(%s, %s)' % (adapter.coq_op(r['op'], r['aux']),
-                                adapter.coq_obs(r['code'], r['agree'], r['fresh_code'], r['state']))
-                  for r in recs])
+    out = []
+    for r in recs:
+        o = adapter.coq_op(r['op'], r['aux'], r['ref'])
+        if o is not None:
+            out.append('(%s, %s)' % (o, adapter.coq_obs(r['code'], r['agree'], r['fresh_code'], r['state'])))
+    return clist(out)
 
 
 if __name__ == '__main__':
